@@ -7,3 +7,6 @@ import J5V.Props.C07
 #print axioms J5V.Props.C07.C07_literal_exact
 #print axioms J5V.Props.C07.C07_literal_range_rejected
 #print axioms J5V.Props.C07.C07_literal_no_panic
+#print axioms J5V.Props.C07.C07_src_setext_types
+#print axioms J5V.Props.C07.C07_src_setext_count
+#print axioms J5V.Props.C07.C07_src_branch_imports
